@@ -156,7 +156,9 @@ func c18tls(c *Ctx) {
 	{
 		ok, why := true, "ws -> http and wss -> https, nothing else"
 		n := 0
-		var stop = func(x *core.Explorer, ev *core.Event) bool { return ev.Kind == core.EvCall && ev.Static != nil && extName(ev.Static) == "(*net/http.Request).WithContext" }
+		var stop = func(x *core.Explorer, ev *core.Event) bool {
+			return ev.Kind == core.EvCall && ev.Static != nil && extName(ev.Static) == "(*net/http.Request).WithContext"
+		}
 		c.explore("C18.tls-everywhere", d.dial, core.Opts{Unroll: 0, NonNilOnNilErr: true, Stop: stop}, func(p *core.Path) {
 			for i := range p.Events {
 				ev := &p.Events[i]
